@@ -561,7 +561,7 @@ func c10FloatBits(r *rand.Rand, n int) []uint64 {
 func init() {
 	run.Register(&run.Prop{
 		ID: "C10", Level: "exploration", MinNontrivial: 1000,
-		Rule:        "arith: (op, a, b, repA, repB) with a,b from the boundary set (0, ±1, ±2^k, ±2^k±1 for k<=130, Min/MaxInt64 and sqrt(2^63) neighbours, 10^k, random 1..40-digit integers) evaluated by gojq as `$a op $b` and compared with math/big; non-trivial = some operand or the exact result has magnitude >= 2^31. literal: (filter, literal text) pairs, every literal counts. float: computed float bit patterns through Marshal/tojson/tostring and the command's encoder; non-trivial = fractional or >= 1e17.",
+		Rule:        "arith: (op, a, b, repA, repB) with a,b from the boundary set (0, ±1, ±2^k, ±2^k±1 for k<=130, Min/MaxInt64 and sqrt(2^63) neighbours, 10^k, random 1..40-digit integers) evaluated by gojq as `$a op $b` and compared with math/big; non-trivial = some operand or the exact result has magnitude >= 2^31. literal: (filter, literal text) pairs, every literal counts. passthrough: arrays of 2-8 literals (repeats, equal values spelled differently) through ~90 filters that only move, select, group or reorder elements (sort, unique, group_by, min/max, reverse, flatten, tostream/fromstream, ... also as `. as $x | sort | $x`), from the input, a variable and fromjson, and through the command (stdin, --argjson, --slurpfile): every number of the output carries the spelling of an input literal (same multiset for permuting filters) and the array handed in is unchanged. float: computed float bit patterns through Marshal/tojson/tostring and the command's encoder; non-trivial = fractional or >= 1e17.",
 		Assumptions: []string{"math/big, strconv and encoding/json are correct", "operands reach gojq through WithVariables values (library API)"},
 		Body: func(c *run.Ctx) {
 			r := c.Rand("c10")
@@ -651,6 +651,40 @@ func init() {
 					}
 					for i := 0; i < len(lits); i += 400 {
 						kC10Lit.Do(c, c10Lit{Filter: f.f, Wrap: f.wrap, Lits: lits[i:min(i+400, len(lits))], CLI: true, Args: args})
+					}
+				}
+			}
+			// several literals through filters that only move, select or reorder them
+			var short []string
+			for _, l := range lits {
+				if len(l) <= 70 {
+					short = append(short, l)
+				}
+			}
+			mkSets := func(n int) [][]string {
+				sets := make([][]string, n)
+				for i := range sets {
+					set := make([]string, 2+r.IntN(7))
+					for j := range set {
+						set[j] = short[r.IntN(len(short))]
+						if j > 0 && r.IntN(5) == 0 {
+							set[j] = set[r.IntN(j)] // the same literal twice
+						}
+						if j > 0 && r.IntN(6) == 0 {
+							set[j] = []string{"1", "1.0", "1.00", "1e0", "10e-1", "0", "-0", "0.0", "0e5", "100", "1e2", "1E2", "3.10", "3.1"}[r.IntN(14)] // equal values spelled differently
+						}
+					}
+					sets[i] = set
+				}
+				return sets
+			}
+			for pi, fs := range [][]string{c10PassPerm, c10PassSub} {
+				for _, f := range fs {
+					for mode := 0; mode < 3; mode++ {
+						kC10Pass.Do(c, c10Pass{Filter: f, Perm: pi == 0, Sets: mkSets(c.N(12, 120)), Mode: mode})
+					}
+					if !c.Quick() || len(f)%3 == 0 {
+						kC10Pass.Do(c, c10Pass{Filter: f, Perm: pi == 0, Sets: mkSets(c.N(2, 10)), CLI: true, Mode: len(f) % 3})
 					}
 				}
 			}
